@@ -2059,7 +2059,18 @@ pub fn assign_all(
                 rhs.push(evaluate(env, e)?);
             }
 
-            let rrhs = rhs.drain(rhs.len() - lhs.len() + si + 1..).collect();
+            // number of plain targets after the splat; the splat itself may take zero values
+            let after = lhs.len() - si - 1;
+            if rhs.len() < si + after {
+                return Err(NErr::value_error(format!(
+                    "{}: expected at least {} ({}), got {}",
+                    err_msg,
+                    si + after,
+                    CommaSeparated(lhs),
+                    rhs.len()
+                )));
+            }
+            let rrhs = rhs.drain(rhs.len() - after..).collect();
             let srhs = rhs.drain(si..).collect();
             assign_all_basic(env, &lhs[..si], rt, rhs, err_msg)?;
             match inner {
